@@ -40,7 +40,7 @@ class InotifyBuffer(BaseThread):
         event = self._queue.get()
         if isinstance(event, InotifyEvent) and event.is_moved_from and event.is_directory:
             # Still unmatched after the delay: the directory has left the watched tree.
-            self._inotify.remove_watches_below(event.src_path)
+            self._inotify.remove_watches_below(event.src_path, cookie=event.cookie)
         return event
 
     def on_thread_stop(self) -> None:
